@@ -173,14 +173,14 @@ Qed.
 Example arith_guard2 : guard2 float ffalsy cfg_fixed FDict w_arith = true /\ guard2 float ffalsy cfg_fixed FDb w_arith = true.
 Proof. split; vm_compute; reflexivity. Qed.
 
-(* with the proposed repair C08-dict-instance-exact (cfg_next) the two witnesses about components without free
+(* with the repair C08-dict-instance-exact (0b56c35, part of cfg_fixed) the two witnesses about components without free
    parameters satisfy the guard of C08_round_trip_partial / the hypothesis of C08_iter_next and round-trip *)
 Lemma zero_prior_next :
-  plain_cf float cfg_next w_zero_tuple = true /\ plain_cf float cfg_next w_zero_extra = true /\
-  (exists n', dict_rt float ffalsy cfg_next w_zero_tuple = Ok n' /\
+  plain_cf float cfg_fixed w_zero_tuple = true /\ plain_cf float cfg_fixed w_zero_extra = true /\
+  (exists n', dict_rt float ffalsy cfg_fixed w_zero_tuple = Ok n' /\
      ival_eqb (inst_from_paths float fbin (ftree n') [(["h"; "a"], 0.5%float)])
               (inst_from_paths float fbin (ftree w_zero_tuple) [(["h"; "a"], 0.5%float)]) = true) /\
-  (exists n', dict_rt float ffalsy cfg_next w_zero_extra = Ok n' /\
+  (exists n', dict_rt float ffalsy cfg_fixed w_zero_extra = Ok n' /\
      snode_eqb (smap float (forget_f float) (norm float n')) (smap float (forget_f float) (norm float w_zero_extra)) = true).
 Proof.
   split; [vm_compute; reflexivity|]. split; [vm_compute; reflexivity|]. split.
@@ -188,7 +188,7 @@ Proof.
   - eexists. split; [vm_compute; reflexivity|vm_compute; reflexivity].
 Qed.
 
-(* a component that IS rebuilt exactly by its class stays an instance under cfg_next *)
+(* a component that IS rebuilt exactly by its class stays an instance under cfg_fixed *)
 Example exact_stays_instance :
-  as_instance float cfg_next (SNode (KModel "G2" ["a"; "b"]) [("a", SConst 1%float); ("b", SConst 2%float)] []) = true.
+  as_instance float cfg_fixed (SNode (KModel "G2" ["a"; "b"]) [("a", SConst 1%float); ("b", SConst 2%float)] []) = true.
 Proof. vm_compute. reflexivity. Qed.
